@@ -347,11 +347,18 @@ func instsFor(p *pcase) []inst {
 	if allConcrete(p.c.Hist) {
 		modes = append(modes, "concrete")
 	}
+	// a re-activation is performed through each of the three API routes
+	acts := []string{""}
+	if hasActivate(p.c.Hist) {
+		acts = []string{"setvariable", "variables", "resetset"}
+	}
 	for _, typ := range []string{"Real64", "Real32"} {
 		for _, ord := range []int{1, 2} {
 			for _, md := range modes {
 				for _, s := range stor {
-					res = append(res, inst{typ, ord, md, s})
+					for _, act := range acts {
+						res = append(res, inst{typ, ord, md, s, act})
+					}
 				}
 			}
 		}
@@ -488,8 +495,14 @@ func (ck *checker) checkCase(p *pcase) {
 			if in.Type == "Real64" && in.Order == 2 && in.Mode == "generic" && in.Storage == "dense" && res.X != nil {
 				noteBranches(st, p, res.X)
 			}
+			if res.ActSame > 0 {
+				st.noteBranch("Activate:same shape/" + in.Act)
+			}
+			if res.ActNew > 0 {
+				st.noteBranch("Activate:new shape/" + in.Act)
+			}
 			base := func() vh.M {
-				return vh.M{"point": numStrs(pt), "x": numStrs(res.X), "observed": res.Obs}
+				return vh.M{"point": numStrs(pt), "x": numStrs(trimX(res.X, n)), "observed": res.Obs}
 			}
 			if res.Panic != "" {
 				if strings.HasPrefix(res.Panic, "harness:") {
@@ -709,4 +722,14 @@ func numStrs(x []float64) []string {
 		r[i] = numStr(x[i])
 	}
 	return r
+}
+
+// trimX drops the unused tail (zeros) of the point vector: x_1..x_n and the
+// values of re-activated leaves from exprlib.ZBase on.
+func trimX(x []float64, n int) []float64 {
+	k := len(x)
+	for k > n && x[k-1] == 0 {
+		k--
+	}
+	return x[:k]
 }
